@@ -145,3 +145,28 @@ theorem fn_refused_unchanged (sys : Sys A S O G W) (hs : sys.Sound) (fn : Fn G W
           exact absurd he (by simp)
 
 end Nix.Guarded
+
+namespace Nix.Guarded
+
+variable {A S G W : Type} [DecidableEq G]
+
+/-- **refused calls are invisible in every history**: on a system whose readers see the whole state, a history of
+calls that obey the discipline ends where the history of its accepted calls ends -/
+theorem history_skips_refused (sys : Sys A S S G W) (hs : sys.Sound) (hid : ∀ s, sys.obs s = s)
+    (h : List (A × List (Step G W))) (hsafe : ∀ c ∈ h, safe sys c.2 = true) (s : S) :
+    runHistory sys h s = runAccepted sys h s := by
+  induction h generalizing s with
+  | nil => rfl
+  | cons c r ih =>
+    have hr : ∀ c' ∈ r, safe sys c'.2 = true := fun c' hc' => hsafe c' (List.mem_cons_of_mem _ hc')
+    simp only [runHistory, runAccepted]
+    cases he : (run sys c.1 c.2 s).2 with
+    | none => simp only; exact ih hr _
+    | some e =>
+      simp only
+      have := safe_refused_unchanged sys hs c.2 (hsafe c (List.mem_cons_self ..)) c.1 s e he
+      rw [hid, hid] at this
+      rw [this]
+      exact ih hr s
+
+end Nix.Guarded
